@@ -111,6 +111,9 @@ func (x *Exec) havocHeaps(st *State, ws *writeSet, mods []modObj, frame bool) {
 		old := x.heapByKey(st, k.key, k.sort)
 		nh := x.fresh(k.key, k.sort)
 		st.heap[k.key] = nh
+		if et, ok := x.heapElem[k.key]; ok {
+			st.assume(x.heapRefsBounded(nh, et, st.alloc)...)
+		}
 		if !frame {
 			continue
 		}
@@ -171,6 +174,17 @@ func (x *Exec) contractCall(st *State, in *ssa.Call, fn *ssa.Function, c *Contra
 	pos := token.NoPos
 	if in != nil {
 		pos = in.Pos()
+	}
+	if c.Opts["functional"] != "" {
+		var ts []*Term
+		for _, a := range args {
+			tv, ok := a.(TV)
+			if !ok {
+				unsup("functional call %s with non-term argument", key)
+			}
+			ts = append(ts, tv.T)
+		}
+		return []Outcome{{st, []Value{x.functionalApp(key, c, fn, ts)}}}
 	}
 	vars := x.paramEnvVars(fn, c, args)
 	pre := &Snapshot{heap: copyHeap(st.heap), vars: vars, alloc: st.alloc}
